@@ -252,6 +252,14 @@ Definition r_boundary_val (ov : option (list (Qc * Qc))) (f : bsp) (axis side : 
   | None => g_val (boundary f axis side) us c
   end.
 
+(* the support of that boundary: _BoundaryFunction.support = f.support[:axis] + f.support[axis+1:]
+   (geometry.py:390), resp. the supports of the remaining knot vectors of the sliced function *)
+Definition r_boundary_support (ov : option (list (Qc * Qc))) (f : bsp) (axis side : nat) : list (Qc * Qc) :=
+  match ov with
+  | Some _ => firstn axis (support_of ov f) ++ skipn (S axis) (support_of ov f)
+  | None => map kv_support (kvs (boundary f axis side))
+  end.
+
 (* ComposedFunction (geometry.py:341-378), geo = geo2 o geo1 with B-spline operands:
    XY = geo1.grid_eval(grd); np.rollaxis(XY, -1): component i of geo1 is coordinate i (xyz) of geo2 *)
 Definition comp_point (f1 : bsp) (us : list Qc) : list Qc := map (g_val f1 us) (seq 0 (nc f1)).
